@@ -69,7 +69,7 @@ def cfg(n, maxops, repair=True, initall=True):
 
 TXS_SMALL = [[], [1], [2], [1, 4]]
 TXS_FULL = [[], [1], [2], [1, 4], [5, 6], [2, 3], [3], [6, 4]]
-DECL_FULL = [[], [1, 3], [2, 4], [3]]
+DECL_FULL = [[], [1, 3], [2, 4], [3], [5], [1, 5]]
 
 
 def gen(run):
@@ -80,13 +80,17 @@ def gen(run):
     # fit in memory).  quick samples 2 500 of the first pool; thorough replays two pools in full: plain include sets, and
     # include sets with a self-include, a missing target and a two-file fan-out.
     incl3 = [[], [2], [3], [2, 3], [1], [0, 3]]
-    pools = [("exh3_1", incl3[:4])] + ([("exh3_1x", [[], [1], [0, 3], [2, 3]])] if thorough else [])
-    for fam, incl in pools:
+    pools = [("exh3_1", incl3[:4], TXS_SMALL[:3], [[]])] + ([("exh3_1x", [[], [1], [0, 3], [2, 3]], TXS_SMALL[:3], [[]])] if thorough else [])
+    # two files that declare one commodity differently: which format is in force follows the include order, after an update
+    # as after a rebuild
+    pools.append(("exh3_1f", incl3[:4], [[]], [[], [4], [5]]))
+    for fam, incl, txs, decls in pools:
         r = run.tlc("MCWorkspace", cfg(3, 1), workers=8, timeout=2400,
-                    extra_modules={"MCWorkspace": mc_module(3, incl, TXS_SMALL[:3], [[]])})
+                    extra_modules={"MCWorkspace": mc_module(3, incl, txs, decls)})
         ex = r.json
-        if not thorough and len(ex) > 2500:
-            ex = run.rng.sample(ex, 2500)
+        cap = 2500 if fam == "exh3_1" else 1500
+        if not thorough and len(ex) > cap:
+            ex = run.rng.sample(ex, cap)
         hs += [(fam, x) for x in ex]
     if thorough:
         # declarations and a fourth transaction list: sampled from the pool of 4 x 4 x 2 = 32 contents per file
